@@ -307,20 +307,21 @@ def jhash(x):
 
 
 class Verdict:
-    def __init__(self, pid, tier, seed):
-        self.pid, self.tier, self.seed = pid, tier, seed
+    def __init__(self, pid, tier, seed, clear=True, tag=""):
+        self.pid, self.tier, self.seed, self.tag = pid, tier, seed, tag
         self.t0 = time.time()
         self.violations = []  # (replay path, suffix)
         self.known_lines = []
         self.n = 0
         os.makedirs(REPLAYS, exist_ok=True)
         import glob
-        for old in glob.glob(os.path.join(REPLAYS, "%s-%d-*.json" % (pid, seed))):
-            os.remove(old)
+        if clear:
+            for old in glob.glob(os.path.join(REPLAYS, "%s-%d-*.json" % (pid, seed))):
+                os.remove(old)
 
     def violation(self, kind, payload, no_input=False):
         self.n += 1
-        path = os.path.join(REPLAYS, "%s-%d-%d.json" % (self.pid, self.seed, self.n))
+        path = os.path.join(REPLAYS, "%s%s-%d-%d.json" % (self.pid, self.tag, self.seed, self.n))
         payload = dict(payload, property=self.pid, kind=kind, seed=self.seed)
         json.dump(payload, open(path, "w"), indent=1, default=str)
         line = "VIOLATION property=%s replay=%s" % (self.pid, path)
